@@ -1,5 +1,6 @@
 import T4V.Proofs.Surface
 import T4V.Proofs.RealOK
+import Mathlib.Tactic.LinearCombination
 /-!
 # Property C02 — elementary surfaces keep their locus and their sense
 
@@ -320,6 +321,107 @@ theorem axisym_z2 (ok : TranscOK α) (a1 r1 a2 r2 : α) : Converted (0:α) 0 "z"
     refine ⟨coll, _, by rw [convertCard, hc]; exact hcs, hl, ?_, hn⟩
     change axisym [a1, r1, a2, r2] p.z (sq p.x + sq p.y) = _
     simp only [axisym, beq_iff_eq, h1, h2, if_false]
+
+/-! ### `P` with nine entries: the plane through three points -/
+
+/-- MCNP's orientation rule for a plane through three points, as in `Spec.elemSense` -/
+def flip3 (n : V3 α) (d : α) : Bool :=
+  if d < 0 then true else if (0:α) < d then false
+  else if n.z < 0 then true else if (0:α) < n.z then false
+  else if n.y < 0 then true else if (0:α) < n.y then false
+  else decide (n.x < 0)
+
+theorem scaled_neg (c x : α) (hc : 0 < c) : (c * x < -0 ↔ x < 0) := by
+  rw [neg_zero]
+  exact ⟨fun h => by by_contra hx; exact absurd h (not_lt.mpr (mul_nonneg hc.le (not_lt.mp hx))),
+         fun h => mul_neg_of_pos_of_neg hc h⟩
+theorem scaled_pos (c x : α) (hc : 0 < c) : (0 < c * x ↔ 0 < x) :=
+  ⟨fun h => by by_contra hx; exact absurd h (not_lt.mpr (mul_nonpos_of_nonneg_of_nonpos hc.le (not_lt.mp hx))),
+   fun h => mul_pos hc h⟩
+
+/-- the cascade on the normalised numbers decides as MCNP's rule on the raw ones -/
+theorem orient_spec (c : α) (hc : 0 < c) (n : V3 α) (d : α) (hn : ¬ (n.x = 0 ∧ n.y = 0 ∧ n.z = 0)) (P F : List α) :
+    orient 0 (c * d) (c * n.x) (c * n.y) (c * n.z) P F = some (if flip3 n d then F else P) := by
+  unfold orient flip3
+  simp only [scaled_neg _ _ hc, scaled_pos _ _ hc]
+  rcases lt_trichotomy d 0 with hd | hd | hd
+  · simp [hd]
+  · rcases lt_trichotomy n.z 0 with hz | hz | hz
+    · simp [hd, hz]
+    · rcases lt_trichotomy n.y 0 with hy | hy | hy
+      · simp [hd, hz, hy]
+      · rcases lt_trichotomy n.x 0 with hx | hx | hx
+        · simp [hd, hz, hy, hx]
+        · exact absurd ⟨hx, hy, hz⟩ hn
+        · simp [hd, hz, hy, hx, not_lt.mpr hx.le]
+      · simp [hd, hz, hy, not_lt.mpr hy.le]
+    · simp [hd, hz, not_lt.mpr hz.le]
+  · simp [hd, not_lt.mpr hd.le]
+
+theorem same_scale {t : TSurf α} {g g' : V3 α → α} (h : Same t g) (c : α) (hc : 0 < c) (e : ∀ p, g p = c * g' p) :
+    Same t g' := by
+  obtain ⟨k, hk, hf⟩ := h
+  exact ⟨k * c, mul_pos hk hc, fun p => by rw [hf p, e p, mul_assoc]⟩
+
+/-- **`P` with nine entries** (three points, not collinear): the plane through the points, oriented by
+MCNP's rule (origin negative; else (0,0,∞), (0,∞,0), (∞,0,0) positive), in exact arithmetic -/
+theorem plane3 (ok : TranscOK α) (x1 y1 z1 x2 y2 z2 x3 y3 z3 : α)
+    (h : 0 < ((V3.sub ⟨x1, y1, z1⟩ ⟨x2, y2, z2⟩).cross (V3.sub (⟨x1, y1, z1⟩ : V3 α) ⟨x3, y3, z3⟩)).norm2) :
+    Converted (0:α) 0 "p" [x1, y1, z1, x2, y2, z2, x3, y3, z3] := by
+  generalize hp1 : (⟨x1, y1, z1⟩ : V3 α) = p1 at h
+  generalize hp2 : (⟨x2, y2, z2⟩ : V3 α) = p2 at h
+  generalize hp3 : (⟨x3, y3, z3⟩ : V3 α) = p3 at h
+  generalize hn : (p1.sub p2).cross (p1.sub p3) = n at h
+  have hs := ok.sqrt_pos _ h
+  have hss := ok.sqrt_sq _ h.le
+  generalize hsd : Transc.sqrt n.norm2 = s at hs hss
+  have hc : 0 < 1 / s := by positivity
+  have hnz : ¬ (n.x = 0 ∧ n.y = 0 ∧ n.z = 0) := by
+    rintro ⟨a, b, c⟩; simp [V3.norm2, V3.dot, a, b, c] at h
+  have hpf : planeFromPoints (0:α) 0 p1 p2 p3 =
+      some (if flip3 n (n.dot p1) then [-(1 / s * n.x), -(1 / s * n.y), -(1 / s * n.z), -(1 / s * n.dot p1)]
+            else [1 / s * n.x, 1 / s * n.y, 1 / s * n.z, 1 / s * n.dot p1]) := by
+    have hl : ¬ (n.norm2 < 0 ∨ n.norm2 = 0) := by
+      rintro (h' | h') <;> [exact absurd h (not_lt.mpr h'.le); exact absurd h (h' ▸ lt_irrefl _)]
+    have hpos : (V3.smul (1 / s) n).dot p1 = 1 / s * n.dot p1 := by simp only [V3.dot, V3.smul]; ring
+    unfold planeFromPoints
+    simp only [hn, hsd, Bool.or_eq_true, decide_eq_true_eq, beq_iff_eq, hl, if_false, hpos]
+    exact orient_spec (1 / s) hc n (n.dot p1) hnz _ _
+  have hcadeq : cadOf (0:α) 0 "p" [x1, y1, z1, x2, y2, z2, x3, y3, z3] =
+      (match planeFromPoints (0:α) 0 p1 p2 p3 with
+       | some [a, b, c, d] => some (cadPlane4 a b c d)
+       | _ => none) := by
+    rw [← hp1, ← hp2, ← hp3]; rfl
+  -- the spec's normal (p2 − p1) × (p3 − p1) is the code's (p1 − p2) × (p1 − p3)
+  have hnS : (V3.sub ⟨x2, y2, z2⟩ ⟨x1, y1, z1⟩).cross (V3.sub (⟨x3, y3, z3⟩ : V3 α) ⟨x1, y1, z1⟩) = n := by
+    rw [← hn, ← hp1, ← hp2, ← hp3]
+    simp only [V3.cross, V3.sub, V3.mk.injEq]
+    refine ⟨by ring, by ring, by ring⟩
+  have hspec : ∀ p, elemSense "p" [x1, y1, z1, x2, y2, z2, x3, y3, z3] p =
+      some (smOf (if flip3 n (n.dot p1) then -(n.dot p - n.dot p1) else n.dot p - n.dot p1)) := by
+    intro p
+    rw [← hnS, ← hp1]
+    rfl
+  have hsq : (1 / s * n.x) * (1 / s * n.x) + (1 / s * n.y) * (1 / s * n.y) + (1 / s * n.z) * (1 / s * n.z) = 1 := by
+    have : n.x * n.x + n.y * n.y + n.z * n.z = s * s := by rw [hss]; rfl
+    have hs0 : s ≠ 0 := hs.ne'
+    field_simp
+    linear_combination this
+  by_cases hf : flip3 n (n.dot p1) = true
+  · have hcad : cadOf (0:α) 0 "p" [x1, y1, z1, x2, y2, z2, x3, y3, z3] =
+        some (cadPlane4 (-(1 / s * n.x)) (-(1 / s * n.y)) (-(1 / s * n.z)) (-(1 / s * n.dot p1))) := by
+      rw [hcadeq, hpf]; simp [hf]
+    obtain ⟨t, hst, hsame⟩ := plane4_same ok (-(1 / s * n.x)) (-(1 / s * n.y)) (-(1 / s * n.z)) (-(1 / s * n.dot p1))
+      (by rw [show (-(1 / s * n.x)) * (-(1 / s * n.x)) + (-(1 / s * n.y)) * (-(1 / s * n.y)) + (-(1 / s * n.z)) * (-(1 / s * n.z)) = 1 by linear_combination hsq]; exact one_pos)
+    refine card_of_same _ hcad hst (same_scale hsame (1 / s) hc fun p => ?_) (fun p => by rw [hspec p])
+    rw [if_pos hf]; simp only [V3.dot]; ring
+  · have hcad : cadOf (0:α) 0 "p" [x1, y1, z1, x2, y2, z2, x3, y3, z3] =
+        some (cadPlane4 (1 / s * n.x) (1 / s * n.y) (1 / s * n.z) (1 / s * n.dot p1)) := by
+      rw [hcadeq, hpf]; simp [hf]
+    obtain ⟨t, hst, hsame⟩ := plane4_same ok (1 / s * n.x) (1 / s * n.y) (1 / s * n.z) (1 / s * n.dot p1)
+      (by rw [hsq]; exact one_pos)
+    refine card_of_same _ hcad hst (same_scale hsame (1 / s) hc fun p => ?_) (fun p => by rw [hspec p])
+    rw [if_neg hf]; simp only [V3.dot]; ring
 
 /-- **finding F14** (kept as a theorem about the model, replayed on the code by the `probe` stream):
 an SQ card whose constant term is positive is emitted with the opposite orientation -/
